@@ -762,3 +762,54 @@ def rule_continuation(m, rid):
                % ("first" if first else "continuation", text, got, "continues" if cont else "ends", wt, "continues" if wc else "ends", len(bad)),
                m.loc(f, tail[0]))
     return r
+
+
+# ------------------------------------------------------------------------------------------------
+# fparser1 give-back (C19.R7)
+# ------------------------------------------------------------------------------------------------
+ONE_QUEUE_TABLE = {
+    "FortranParser.put_item": ({"left-push"}, "a line a statement hands back (typed FUNCTION header, PURE/ELEMENTAL prefix, "
+                                              "one-line IF/WHERE body) must be the next one parsed"),
+}
+
+
+def rule_queue_one(m, rid):
+    r = RuleResult(rid, "fparser1 gives lines back to the FRONT of the reader's queue (directly or through the reader's put_item), and nobody "
+                        "else in fparser1 touches the queue")
+    r.floor = 1
+    seen = set()
+    for (p, q), f in sorted(m.funcs.items()):
+        mod = m.file_mod.get(p, "") if hasattr(m, "file_mod") else ""
+        if "/one/" not in p.replace("\\", "/") and not p.endswith("common/base_classes.py"):
+            continue
+        if "/tests/" in p:
+            continue
+        for fam, c, recv in fifo_ops(m, f):
+            r.instances += 1
+            seen.add(q)
+            ent = ONE_QUEUE_TABLE.get(q)
+            if ent is None:
+                r.ob(False)
+                r.fail("%s|unlisted|%s" % (q, fam), "%s performs a %s on the reader's item queue; only FortranParser.put_item is confirmed "
+                       "to do so in fparser1" % (q, fam), m.loc(f, c))
+                continue
+            ok = fam in ent[0]
+            r.ob(ok, "%s: %s (`%s`) -- %s" % (q, fam, A.text(c)[:50], ent[1]))
+            if not ok:
+                r.fail("%s|%s" % (q, fam), "%s performs a %s on the reader's queue (`%s`): with several statements already queued (a ';' line) the "
+                       "line handed back is parsed after them, so e.g. the type of `integer function f(); f = 1; end function f` "
+                       "ends up after END FUNCTION" % (q, fam, A.text(c)[:50]), m.loc(f, c))
+    pk = [k for k in m.classes if k.endswith(":FortranParser") and ".one." in k]
+    if pk:
+        pf = m.method(pk[0], "put_item")
+        if pf is not None and "FortranParser.put_item" not in seen:
+            # forwarding to the reader's own put_item is equally fine
+            fwd = any(A.text(c.func) == "self.reader.put_item" for c in A.calls(pf.node))
+            r.instances += 1
+            r.ob(fwd, "FortranParser.put_item forwards to self.reader.put_item")
+            if not fwd:
+                r.fail("FortranParser.put_item|lost", "FortranParser.put_item neither pushes the item to the front of the reader's queue nor "
+                       "forwards it to the reader's put_item: the line handed back is lost", m.loc(pf))
+    else:
+        r.error("fparser.one FortranParser not found (anchor vanished)")
+    return r
